@@ -48,6 +48,13 @@ TrAdd       == IsOpIn({"add", "add_assign"}) /\ M!MAdd(DV(E.b))      /\ DurIs(E.
 TrSub       == IsOpIn({"sub", "sub_assign"}) /\ M!MSub(DV(E.b))      /\ DurIs(E.res, d')
 TrAddUnit   == IsOpIn({"add_unit", "add_assign_unit"}) /\ M!MAdd(Ur[E.u]) /\ DurIs(E.res, d')
 TrSubUnit   == IsOpIn({"sub_unit", "sub_assign_unit"}) /\ M!MSub(Ur[E.u]) /\ DurIs(E.res, d')
+TrUnitPm    == IsOpIn({"unit_add_unit", "unit_sub_unit"}) /\
+                 d' = (IF E.op = "unit_add_unit" THEN M!DAdd(Ur[E.a], Ur[E.b]) ELSE M!DSub(Ur[E.a], Ur[E.b]))
+                 /\ out' = <<"dur", d'>> /\ DurIs(E.res, d')
+(* Duration::from_tz_offset(sign, hours, minutes): hours * 1 h + minutes * 1 min, negated for a negative sign *)
+TrFromTz    == IsOp("from_tz") /\
+                 LET mag == M!DAdd(M!FromUnit(Big(E.h), 6), M!FromUnit(Big(E.mi), 5)) IN
+                   d' = (IF E.sign < 0 THEN M!DNeg(mag) ELSE mag) /\ out' = <<"dur", d'>> /\ DurIs(E.res, d')
 TrNeg       == IsOp("neg")        /\ M!MNeg                          /\ DurIs(E.res, d')
 TrAbs       == IsOp("abs")        /\ M!MAbs                          /\ DurIs(E.res, d')
 TrMulI      == IsOpIn({"mul_i64", "i64_mul"}) /\ M!MMulI(Big(E.q))   /\ DurIs(E.res, d')
@@ -142,6 +149,7 @@ Dev_F1 ==
 DurationNext ==
   \/ Dev_F1
   \/ TrLoad \/ TrFromTotal \/ TrFromUnit \/ TrAdd \/ TrSub \/ TrAddUnit \/ TrSubUnit
+  \/ TrUnitPm \/ TrFromTz
   \/ TrNeg \/ TrAbs \/ TrMulI \/ TrDivI \/ TrFloor \/ TrCeil \/ TrRound
   \/ TrParts \/ TrTotal \/ TrSignum \/ TrFromTrunc \/ TrTryTrunc \/ TrTrunc
   \/ TrCmp \/ TrCmpUnit \/ TrSort \/ TrDecompose \/ TrCompose \/ TrFromStd \/ TrIntoStd
@@ -194,6 +202,15 @@ TrECmp == IsOp("e_cmp") /\ KeepD /\ Has(E.res, "cmp") /\
                  /\ \A fld \in {"max", "omax"} : IF c = 0 THEN (EpIs(r[fld], e) \/ EpIs(r[fld], f)) ELSE EpIs(r[fld], IF c > 0 THEN e ELSE f)
             /\ X!ECmp(f, c)
 
+(* ranges and sorting follow the chronological order *)
+TrERange == IsOp("e_range") /\ KeepD /\ KeepE /\ Has(E.res, "excl") /\
+          LET lo == EV(E.lo)  hi == EV(E.hi)
+              sure == \A x \in {lo, hi} : (x.ts = e.ts \/ (X!Roomy(x) /\ X!Roomy(e)))
+              ge == X!ChronoCmp(e, lo) >= 0  lt == X!ChronoCmp(e, hi) < 0  le == X!ChronoCmp(e, hi) <= 0
+          IN  sure => (E.res.excl = (ge /\ lt) /\ E.res.incl = (ge /\ le))
+TrESort == IsOp("e_sort") /\ KeepD /\ KeepE /\ Has(E.res, "v") /\ Len(E.res.v) = Len(E.xs)
+          /\ \A i \in 1..(Len(E.res.v) - 1) : X!ChronoCmp(EV(E.res.v[i]), EV(E.res.v[i + 1])) <= 0
+          /\ SameBag(E.xs, E.res.v)
 TrEFloor == IsOp("e_floor") /\ KeepD /\ X!EFloor(DV(E.s)) /\ EpIs(E.res, e')
 TrECeil  == IsOp("e_ceil")  /\ KeepD /\ IsEp(E.res) /\ X!ECeil(DV(E.s), DV(E.res)) /\ EpIs(E.res, e')
 TrERound == IsOp("e_round") /\ KeepD /\ IsEp(E.res) /\ X!ERound(DV(E.s), DV(E.res)) /\ EpIs(E.res, e')
@@ -323,7 +340,7 @@ Dev_F11 ==
 EpochNext1 ==
   \/ TrRefConst \/ TrOffsetConsts \/ TrLeapDump \/ TrLeapNaif \/ TrLeapQuery
   \/ TrELoad \/ TrEAdd \/ TrESub \/ TrEAddU \/ TrESubU \/ TrEAddF \/ TrESubE
-  \/ TrToScale \/ TrToDur \/ TrECmp \/ TrEFloor \/ TrECeil \/ TrERound
+  \/ TrToScale \/ TrToDur \/ TrECmp \/ TrERange \/ TrESort \/ TrEFloor \/ TrECeil \/ TrERound
   \/ TrFromGreg \/ TrIsValid \/ TrToGreg \/ TrWeekday \/ TrNext \/ TrPrev
   \/ TrFromTOW \/ TrToTOW \/ TrFromNs \/ TrToNs
 (* F1 through Epoch::floor / ceil / round (they act on the elapsed time with Duration's methods) *)
